@@ -648,6 +648,9 @@ func TestC16(t *testing.T) {
 	run := hx.Start(t, "C16")
 	defer run.Finish()
 	if run.Replaying() {
+		if rt := run.ReplayTest(); rt != "" && rt != t.Name() {
+			return
+		}
 		var c Case
 		run.ReplayCase(&c)
 		e, err := env.Get(c.Target)
